@@ -366,7 +366,9 @@ def handle (case impl : List String) : Verdict :=
     -- Angle::wrap = min + rem_euclid(a − min, max − min) with the back end's rem_euclid
     match bits? a, bits? lo, bits? hi with
     | some ab, some lb, some hb =>
-      let model := add lb (remEuclidModel be (sub ab lb) (sub hb lb))
+      -- (with the cap of the `fix:` for wrap-above-max: `if min < max && w > max { max } else { w }`)
+      let w0 := add lb (remEuclidModel be (sub ab lb) (sub hb lb))
+      let model := if lt lb hb && lt hb w0 then hb else w0
       let tags := ["wrap", be, "a-" ++ inputTag ab]
       match bits? i0 with
       | none => Verdict.mkDiff s!"unreadable output {i0}" tags
